@@ -4,7 +4,7 @@ from __future__ import annotations
 
 import ast
 
-from ..interp import analyze, truth
+from ..interp import analyze, analyze_precise, truth
 from ..model import AnalysisError, Model
 from ..report import Ctx, where
 from ..shape import E, N, NE, TOP, Shapes
@@ -28,6 +28,28 @@ def functions(model: Model, backends=("py",)):
     return [fi for fi in model.all_funcs(backends)]
 
 
+def _sh1_sites(shapes, fi, r):
+    sites = {}
+    for e in r.by_kind("sub", "store_sub"):
+        idx = e.index
+        if idx[0] == "slice" or (idx[0] == "const" and not isinstance(idx[1], int)) or isinstance(idx[1] if idx[0] == "const" else 0, bool):
+            continue
+        node = e.node if e.kind == "sub" else e.target
+        if idx[0] != "const":
+            # variable index: only the `while i < len(x): x[i]` idiom
+            ok = truth(("cmp", "Lt", idx, ("call", ("builtin", "len"), (e.base,), ())), e.state.facts) is True
+            if not ok and not _mapping_like(e.base):
+                sites.setdefault((id(node), "var"), [node, show(e.base), show(idx), []])[3].append(("var", False))
+            elif ok:
+                sites.setdefault((id(node), "var"), [node, show(e.base), show(idx), []])[3].append(("i < len(x)", True))
+            continue
+        shp = shapes.shape(e.base, e.state.facts, fi, None, r)
+        ok = not (shp & {E, N}) or shp == frozenset() or suppressed_index_error(e.state)
+        key = (id(node), idx[1])
+        sites.setdefault(key, [node, show(e.base), show(idx), []])[3].append((sorted(shp), ok))
+    return sites
+
+
 def sh1(ctx: Ctx, shapes: Shapes, funcs=None, floor=25):
     rule = "SH1"
     ctx.rule(rule, floor=floor, what="every constant-index subscript on a str/list/tuple is dominated by a non-emptiness fact")
@@ -37,30 +59,30 @@ def sh1(ctx: Ctx, shapes: Shapes, funcs=None, floor=25):
             continue
         r = analyze(model, fi)
         ctx.functions.add(fi.qual)
-        sites = {}
-        for e in r.by_kind("sub", "store_sub"):
-            idx = e.index
-            if idx[0] == "slice" or (idx[0] == "const" and not isinstance(idx[1], int)) or isinstance(idx[1] if idx[0] == "const" else 0, bool):
-                continue
-            node = e.node if e.kind == "sub" else e.target
-            if idx[0] != "const":
-                # variable index: only the `while i < len(x): x[i]` idiom
-                ok = truth(("cmp", "Lt", idx, ("call", ("builtin", "len"), (e.base,), ())), e.state.facts) is True
-                if not ok and not _mapping_like(e.base):
-                    sites.setdefault((id(node), "var"), [node, show(e.base), show(idx), []])[3].append(("var", False))
-                elif ok:
-                    sites.setdefault((id(node), "var"), [node, show(e.base), show(idx), []])[3].append(("i < len(x)", True))
-                continue
-            shp = shapes.shape(e.base, e.state.facts, fi, None, r)
-            ok = not (shp & {E, N}) or shp == frozenset()
-            key = (id(node), idx[1])
-            sites.setdefault(key, [node, show(e.base), show(idx), []])[3].append((sorted(shp), ok))
+        sites = _sh1_sites(shapes, fi, r)
+        if any(not ok for (_n, _b, _i, results) in sites.values() for _s, ok in results):
+            # merging keeps facts per value and can lose "kwargs empty => len(args) == 1"-style correlations between two
+            # values: a site is reported only if it is still unproved when every path is kept apart
+            r2 = analyze_precise(model, fi)
+            if r2 is not r:
+                sites = _sh1_sites(shapes, fi, r2)
         for (_, _i), (node, base, idx, results) in sites.items():
             ctx.instance(rule)
             bad = [s for s, ok in results if not ok]
             ctx.ob(rule, fi.qual, f"{ast.unparse(node) if hasattr(node, 'lineno') else base}", not bad,
                    f"subscript [{idx}] on a value that can be empty on some path (shapes {bad[:2]}): IndexError",
                    where(fi, node), sample=f"non-empty on all {len(results)} reaching state(s)")
+
+
+def suppressed_index_error(state):
+    """Inside `with suppress(IndexError)` (or a `try` whose handler catches it) the failed subscript is the handled case."""
+    for c in state.ctx:
+        if c[0] == "with" and any("suppress" in show(x) and "IndexError" in show(x) for x in c[1]):
+            return True
+        if c[0] == "try" and any(h in ("IndexError", "LookupError", "Exception", "BaseException") or
+                                 ("IndexError" in h and h.startswith("(")) for h in c[1]):
+            return True
+    return False
 
 
 def _mapping_like(t):
@@ -148,7 +170,10 @@ def ex_rules(ctx: Ctx, shapes: Shapes, funcs=None):
     r2 = "EX2"
     ctx.rule(r2, what="no assert outside `if TYPE_CHECKING`")
     r5 = "EX5"
-    ctx.rule(r5, floor=1, what="list.pop() / del list[i] only under suppress(IndexError) or a non-empty fact")
+    # no floor: an implementation without any pop()/del is fine; instead the rule proves on every run that it still fires
+    # on a built-in positive example and stays silent on its guarded twin
+    ctx.rule(r5, floor=0, what="list.pop() / del list[i] only under suppress(IndexError) or a non-empty fact")
+    _ex5_selfcheck(model)
     for fi in (funcs or functions(model)):
         r = analyze(model, fi)
         sites = {}
@@ -178,16 +203,40 @@ def ex_rules(ctx: Ctx, shapes: Shapes, funcs=None):
             ctx.instance(r2)
             ctx.ob(r2, fi.qual, f"assert {show(e.test)}", False, "assert reachable at run time (AssertionError can leak)",
                    where(fi, e.node))
-        for e in r.by_kind("mutate"):
-            # removal of the last element: x.pop() or del x[-1] (same IndexError on an empty list)
-            if not ((e.method == "pop" and not e.args) or (e.method == "delitem" and e.args and e.args[0][0] == "const")):
-                continue
+        for e in _removals(r):
             ctx.instance(r5)
-            sup = any(c[0] == "with" and any("suppress" in show(x) and "IndexError" in show(x) for x in c[1]) for c in e.state.ctx)
-            ne = truth(e.recv, e.state.facts) is True
+            sup, ne = _removal_safe(e)
             ctx.ob(r5, fi.qual, f"{show(e.recv)}.pop()" if e.method == "pop" else f"del {show(e.recv)}[{show(e.args[0])}]", sup or ne,
                    "pop() / del [i] on a possibly empty list outside suppress(IndexError)",
                    where(fi, e.node), sample="inside suppress(IndexError)" if sup else "non-empty")
+
+
+def _removals(r):
+    """removal of the last / a fixed element: x.pop() or del x[i] (same IndexError on an empty list)"""
+    return [e for e in r.by_kind("mutate")
+            if (e.method == "pop" and not e.args) or (e.method == "delitem" and e.args and e.args[0][0] == "const")]
+
+
+def _removal_safe(e):
+    return suppressed_index_error(e.state), truth(e.recv, e.state.facts) is True
+
+
+_EX5_EXAMPLES = (
+    ("def f(xs):\n    xs.pop()\n", False),
+    ("def f(xs):\n    del xs[-1]\n", False),
+    ("def f(xs):\n    if xs:\n        xs.pop()\n", True),
+    ("def f(xs):\n    from contextlib import suppress\n    with suppress(IndexError):\n        del xs[-1]\n", True),
+)
+
+
+def _ex5_selfcheck(model):
+    from ..model import FuncInfo
+    for i, (src, want) in enumerate(_EX5_EXAMPLES):
+        node = ast.parse(src).body[0]
+        r = analyze(model, FuncInfo("_path", None, f"<ex5-example-{i}>", node))
+        got = [any(_removal_safe(e)) for e in _removals(r)]
+        if got != [want]:
+            raise AnalysisError(f"EX5 self-check: the rule judges {src!r} as {got}, expected [{want}]")
 
 
 def shapes_contradiction(shapes: Shapes, state, fi, res):
